@@ -75,6 +75,7 @@ EXPLANATION = (
     "stream_workflow_ticks of both stores against what append_tick was given (a second run interleaved); a chain persisting more than two pages of ticks restarted from the sqlite and memory "
     "stores at stops beyond one and two pages and after its end (same result and state store as uninterrupted; the restart must replay every persisted tick once, in order). The harness' "
     "notion of 'the persisted log' is the record of append_tick calls, not a read of the store. "
+    "Every prefix / any log / the table: C13_every_log_prefix_is_a_stop_point (at most one tick is persisted per runner action and the log is never rewritten, so the first k ticks of any run's log are the whole log of that run stopped after a prefix of its schedule) and C13_replay_every_log_prefix (C13_replay_reproduces_state restated over log prefixes); for arbitrary tick lists C13_replay_prefix_closed_exit_kept (replay of a++b succeeding implies replay of a succeeds and the whole is its continuation; an exit command is never forgotten; exit_command is always one of the three exit commands and only the idle release maps to resume) and C13_unreplayable_prefix_stays_unreplayable; C13_start_picks_complete (no eligible run overlooked), C13_no_state_marked_failed, C13_legacy_ctx_resumed. Model TickTable (sqlite append_tick's COALESCE(MAX(sequence) of the run, -1)+1 statement, the memory store's existing[-1].sequence+1 / 0 rule, get_ticks of both): C13_tick_table_is_the_append_log — after ANY interleaved history of appends each run's rows are what was appended, in call order, numbered 0..n-1, the same in both stores, and stream_ticks over them is complete; C13_tick_append_shape pins the constants and statement shapes re-extracted from both stores. Tie: `c13table` op against get_ticks of the real stores on every paging history and on short histories over 1..5 interleaved runs; search: C13/stored_log_is_not_the_append_log on both readers of both stores. "
     "The full server stack (WorkflowServer always puts IdleReleaseDecorator around PersistenceDecorator, and the start query reads the idle marker that layer maintains): model RowMark "
     "(idle announcement sets the marker; a returned send_event clears it, reloading a released run first; release; process stop) and restartHandler (marker set: the row is skipped, else restartRun). "
     "C13_woken_run_not_idle: after ANY history, once a send_event has returned and the run has not announced idleness again, the row does not carry the marker; C13_woken_run_resumed: such a row is "
@@ -100,7 +101,7 @@ ASSUMPTIONS = suite.ENGINE_ASSUMPTIONS + [
     "postgres / DBOS / agent-data stores are not run (their paginated stream_ticks are separate code with the same page loop)",
     "RowMark: memory / sqlite store calls never yield, so an idle announcement, a send_event and a release are atomic with respect to each other (the interleavings with stores that suspend are C26 / C36, model Lifecycle); the harness' idle-marker events are its own observations (WorkflowIdleEvent at the innermost adapter, return of the idle layer's send_event, _release_idle_handler dropping the run), never a read of the handler row",
     "full-stack family: no timers (retry delays, waiter timeouts) -- a run woken by a timer of the dead process is C14's subject and is classified :internal_wakeup; stop points at which an event sent with ctx.send_event is persisted while its sender's step result is not are skipped in this family (counted; see the report on C13/wrong_result_after_event_sent_again_by_reexecuted_step)",
-    "TickStream: a run's sequence column is strictly increasing (append_tick assigns MAX(sequence)+1 per run under one writer; checked on every generated log)",
+    "TickStream / TickTable: one writer per store (append_tick calls do not overlap: sqlite runs the INSERT in one transaction, the memory store never yields); under that, the strictly increasing sequence column is proved from the writer's statement (C13_tick_table_is_the_append_log) and checked on every generated log",
 ]
 TRUSTED_EXTRA = [
     "harness/server/stack.py, harness/server/restart.py: in-process WorkflowServer wiring (with or without the idle-release layer), store views with a kill switch and a record of every append_tick call (the reference log), tick-log truncation, stops at a persisted tick or at the next quiet instant, call-through spies on the idle layer's send_event / _release_idle_handler",
